@@ -8,7 +8,8 @@ parse_qsl at byte level; always-safe set, METHODS, default header values regener
 live modules into `Gen/HttpConsts.lean`).  "Byte string" = list of numbers `< 256` (`BytesOk`).
 
 Full statement (composed): for every spec in the quantifier, `recover (build spec) = view spec`
-(`request_roundtrip_partial`, proved for every `WF` spec).
+(`request_roundtrip_partial`, proved for every `WF` spec; `requests_recovered_in_sequence_partial` for any number of
+requests on one connection).
 It FAILS on two characterised sets, excluded by `WF`, kept as recorded known findings and proved to fail here:
  * a header name sent twice (F50 / C14-K1): `repeated_header_keeps_last`;
  * TAB / CR / LF in the path (C14-K2): `path_tab_is_dropped`.
@@ -48,21 +49,40 @@ theorem header_line_roundtrip (n v : Bytes) (h : 58 ∉ n) :
     ∃ k, split2 58 32 (packHeader n v) = some (k, v) ∧ lower k = lower n :=
   ⟨title n, split_packHeader n v h, lower_title n⟩
 
+/-- C14.e  a query string written ON THE PATH in the standard form encoding (`+`, percent escapes in names and values) is read
+by `updateQargsQuery` as exactly its argument list, for every list of byte-string pairs … -/
+theorem path_query_roundtrip (ps : List (Bytes × Bytes)) (h : ∀ kv ∈ ps, BytesOk kv.1 ∧ BytesOk kv.2) :
+    parsePathQs (packQs ps) = ps :=
+  parsePathQs_packQs ps h
+
+/-- … and `path?query` is split there: the path proper and the query as written -/
+theorem path_with_query_splits (p : Bytes) (ps : List (Bytes × Bytes)) (hok : pathOk p = true)
+    (h : ∀ kv ∈ ps, BytesOk kv.1 ∧ BytesOk kv.2) :
+    urlParts (p ++ 63 :: packQs ps) = (p, packQs ps) := by
+  unfold pathOk at hok
+  simp only [Bool.and_eq_true, Bool.not_eq_true'] at hok
+  obtain ⟨⟨_, h63⟩, h35⟩ := hok
+  refine urlParts_with_query p _ ?_ ?_ ?_
+  · intro hm; have := List.contains_iff_mem.mpr hm; rw [h35] at this; exact absurd this (by decide)
+  · intro hm; have := List.contains_iff_mem.mpr hm; rw [h63] at this; exact absurd this (by decide)
+  · intro hm; exact (packQs_targetBytes ps h 35 hm).2.1 rfl
+
 /-! ### the composed theorem -/
 
 /-- a request inside C14's quantifier.  Every clause is a decidable condition on the spec:
-the method is an HTTP method (any case); the path is a path (`pathOk`: one leading `/`, no `?`/`#`), any bytes, but no
-TAB/CR/LF (C14-K2); query keys and values are arbitrary byte strings; header names have no `:`/LF and values no LF; no
-header name goes on the wire twice (F50 / C14-K1), at most 100 fields, the client does not announce chunking, and an
-explicit Content-Length states the length of the body that is sent; forms are not multipart. -/
+the method is an HTTP method (any case); what the caller passes as path has no TAB/CR/LF (C14-K2) and its path part
+(`pathOf`: before `?`/`#`) is a path (`pathOk`: one leading `/`), any bytes; the query arguments that go on the wire
+(`queryOf`: the dict updated by the arguments written on the path) are arbitrary byte strings; header names have no
+`:`/LF and values no LF; no header name goes on the wire twice (F50 / C14-K1), at most 100 fields, the client does not
+announce chunking, and an explicit Content-Length states the length of the body that is sent. -/
 structure WF (s : Spec) : Prop where
   method : upper s.method ∈ Gen.methods
   ascii : isAscii s.method = true
-  path : pathOk s.path = true
-  pathBytes : BytesOk s.path
+  pathGiven : s.path ≠ []
   pathClean : stripUnsafe s.path = s.path
-  query : ∀ kv ∈ s.qargs, BytesOk kv.1 ∧ BytesOk kv.2
-  notMultipart : (!isGet s && s.bkind == 2 && multipart s) = false
+  path : pathOk (pathOf s) = true
+  pathBytes : BytesOk (pathOf s)
+  query : ∀ kv ∈ queryOf s, BytesOk kv.1 ∧ BytesOk kv.2
   names : ∀ h ∈ builtHeaders s, 10 ∉ h.1 ∧ 58 ∉ h.1
   values : ∀ h ∈ builtHeaders s, 10 ∉ h.2
   distinct : ((builtHeaders s).map (fun h => lower h.1)).Nodup
@@ -71,19 +91,58 @@ structure WF (s : Spec) : Prop where
   length : LengthOk (builtHeaders s) (builtBody s)
 
 /-- what the server must recover -/
-def view (s : Spec) : View := ⟨upper s.method, s.path, s.qargs, lowered (builtHeaders s), builtBody s⟩
+def view (s : Spec) : View := ⟨upper s.method, pathOf s, queryOf s, lowered (builtHeaders s), builtBody s⟩
+
+/-- the bytes of one request -/
+def wireOf (s : Spec) : Bytes :=
+  joinCrlf ((upper s.method ++ [32] ++ target (pathOf s) (queryOf s) ++ [32] ++ Gen.requestVersion) ::
+    (builtHeaders s).map (fun h => packHeader h.1 h.2) ++ [[], []]) ++ builtBody s
+
+theorem build_wire (s : Spec) (wf : WF s) : build s = .ok (wireOf s) :=
+  build_eq s wf.pathGiven wf.pathClean wf.path wf.ascii
+
+/-- whatever follows a request on the connection, the server recovers exactly `view s` and stops exactly at its end -/
+theorem recover_then (s : Spec) (wf : WF s) (tail : Bytes) : recover (wireOf s ++ tail) = .ok (view s, tail) :=
+  recover_wire (upper s.method) (pathOf s) (queryOf s) (builtHeaders s) (builtBody s) tail
+    ⟨wf.method, wf.path, wf.pathBytes, wf.query, wf.names, wf.values, wf.distinct, wf.few, wf.noTe, wf.length⟩
 
 /-- C14 (composed; `_partial` because `WF` carries the two defect guards `distinct` (F50) and `pathClean` (C14-K2) next to
-the clauses that merely spell out the property's quantifier): for EVERY well-formed request spec the bytes `Requester.build` produces are parsed by
+the clauses that merely spell out the property's quantifier): for EVERY well-formed request spec — query arguments in the
+dict and/or on the path, raw / JSON / urlencoded / multipart body — the bytes `Requester.build` produces are parsed by
 `Requestant` (+ `parse_qsl` on the query string) back to exactly the same method, path, query-argument list, header
-fields (names ignoring case, values untouched, in wire order) and body bytes -/
+fields (names ignoring case, values untouched, in wire order) and body bytes, with nothing left unconsumed -/
 theorem request_roundtrip_partial (s : Spec) (wf : WF s) :
-    ∃ msg, build s = .ok msg ∧ recover msg = .ok (view s) := by
-  have hne : s.path ≠ [] := by
-    intro e; have := wf.path; rw [e] at this; exact absurd this (by decide)
-  refine ⟨_, build_eq s hne wf.pathClean wf.path wf.ascii wf.notMultipart, ?_⟩
-  exact recover_wire (upper s.method) s.path s.qargs (builtHeaders s) (builtBody s)
-    ⟨wf.method, wf.path, wf.pathBytes, wf.query, wf.names, wf.values, wf.distinct, wf.few, wf.noTe, wf.length⟩
+    ∃ msg, build s = .ok msg ∧ recover msg = .ok (view s, []) := by
+  refine ⟨wireOf s, build_wire s wf, ?_⟩
+  have := recover_then s wf []
+  rwa [List.append_nil] at this
+
+theorem wireOf_ne_nil (s : Spec) (wf : WF s) : wireOf s ≠ [] := by
+  intro e
+  have := recover_then s wf []
+  rw [List.append_nil, e] at this
+  have h2 : recover [] = .error .incomplete := rfl
+  rw [h2] at this
+  cases this
+
+/-- C14 on a kept-alive connection: requests sent one after the other are recovered one by one, each exactly as if it were
+alone — the parser carries nothing over from an earlier request (header fields, Content-Length, body) -/
+theorem requests_recovered_in_sequence_partial (specs : List Spec) (wf : ∀ s ∈ specs, WF s) :
+    specs.map build = specs.map (fun s => .ok (wireOf s)) ∧
+    recoverSeq specs.length (specs.flatMap wireOf) = specs.map (fun s => .ok (view s)) := by
+  refine ⟨List.map_congr_left (fun s hs => build_wire s (wf s hs)), ?_⟩
+  induction specs with
+  | nil => rfl
+  | cons s rest ih =>
+    have hs := wf s (List.mem_cons_self ..)
+    simp only [List.length_cons, List.flatMap_cons, recoverSeq, List.map_cons]
+    have hne : (wireOf s ++ rest.flatMap wireOf).isEmpty = false := by
+      cases h : wireOf s with
+      | nil => exact absurd h (wireOf_ne_nil s hs)
+      | cons _ _ => rfl
+    rw [hne, recover_then s hs]
+    simp only [Bool.false_eq_true, ↓reduceIte]
+    rw [ih (fun x hx => wf x (List.mem_cons_of_mem _ hx))]
 
 /-- … and the caller's own header fields are among those recovered, value untouched (a Content-Type is replaced only when
 a JSON / form body dictates it) -/
@@ -93,39 +152,54 @@ theorem spec_headers_recovered (s : Spec) (x : Bytes × Bytes) (hx : x ∈ s.hea
   have := spec_header_on_wire s x hx hct
   exact List.mem_map.mpr ⟨x, this, rfl⟩
 
-/-- the body recovered is the body the client meant to send: raw bytes / JSON text as given, nothing with GET -/
+/-- the body recovered is the body the client meant to send: raw bytes / JSON text as given, the form encoding of the
+fields (urlencoded, or multipart with the drawn boundary), nothing with GET -/
 theorem body_recovered (s : Spec) :
-    (view s).body = if isGet s then [] else if s.bkind == 2 then formBody s.form else s.raw := by
-  unfold view builtBody
-  by_cases hg : isGet s = true
-  · simp [hg]
-  · by_cases h1 : (s.bkind == 1) = true
-    · have : (s.bkind == 2) = false := by
-        have : s.bkind = 1 := by simpa using h1
-        simp [this]
-      simp [hg, h1, this]
-    · simp [hg, h1]
+    (view s).body = if isGet s then [] else if s.bkind == 1 then s.raw
+      else if s.bkind == 2 then (if multipart s then multipartBody s.boundary s.form else formBody s.form) else s.raw := by
+  unfold view builtBody bodyAndHeaders isGet
+  simp only []
+  split
+  · rfl
+  · split
+    · rfl
+    · split
+      · split <;> rfl
+      · rfl
+
+/-- a plain path with a dict: what is recovered is the path and the dict as given -/
+theorem plain_path_view (s : Spec) (hok : pathOk s.path = true) : (view s).path = s.path ∧ (view s).query = s.qargs := by
+  unfold view pathOf queryOf
+  rw [urlParts_plain s.path hok]
+  simp [parsePathQs, mergeQs]
 
 /-- F50 / C14-K1 (known finding, replayed on the implementation): a header sent twice keeps only its last value -/
 theorem repeated_header_keeps_last :
-    let s : Spec := ⟨lit "GET", lit "/p", [], [(lit "x-one", lit "1"), (lit "X-ONE", lit "2")], 0, [], [], lit "h:1"⟩
-    ∃ msg v, build s = .ok msg ∧ recover msg = .ok v ∧ getKey (lit "x-one") v.headers = some (lit "2") ∧
+    let s : Spec := ⟨lit "GET", lit "/p", [], [(lit "x-one", lit "1"), (lit "X-ONE", lit "2")], 0, [], [], lit "h:1", []⟩
+    ∃ msg v, build s = .ok msg ∧ recover msg = .ok (v, []) ∧ getKey (lit "x-one") v.headers = some (lit "2") ∧
       (lit "x-one", lit "1") ∉ v.headers := by
   refine ⟨_, _, rfl, rfl, ?_, ?_⟩ <;> decide
 
 /-- C14-K2 (known finding, replayed on the implementation): TAB / CR / LF in the path are dropped before quoting -/
 theorem path_tab_is_dropped :
-    let s : Spec := ⟨lit "GET", [47, 112, 9, 113, 10], [], [], 0, [], [], lit "h:1"⟩
-    ∃ msg v, build s = .ok msg ∧ recover msg = .ok v ∧ v.path = lit "/pq" := by
+    let s : Spec := ⟨lit "GET", [47, 112, 9, 113, 10], [], [], 0, [], [], lit "h:1", []⟩
+    ∃ msg v, build s = .ok msg ∧ recover msg = .ok (v, []) ∧ v.path = lit "/pq" := by
   exact ⟨_, _, rfl, rfl, by decide⟩
 
-/-- non-vacuity: a spec with mixed-case method, non-ASCII path bytes, reserved characters in query keys and values, several
-headers (one overriding a default) satisfies `WF` -/
-example : WF ⟨lit "get", lit "/a b/" ++ [195, 169, 37], [(lit "k 1", lit "v&=1"), ([], []), ([228, 184, 173], lit "+")],
-    [(lit "X-One", lit " v "), (lit "accept-encoding", lit "gzip"), (lit "Cookie", [255, 0])], 0, lit "dropped", [], lit "example.com:8080"⟩ := by
-  refine ⟨by decide, by decide, by decide, by unfold BytesOk; decide, by decide, ?_, by decide, by decide, by decide, by decide,
+/-- non-vacuity: a spec with mixed-case method, non-ASCII path bytes, a query written on the path (`+`, an escaped `&` in a name)
+that overrides one dict entry, reserved characters in dict keys and values, several headers (one overriding a default) satisfies `WF` -/
+example : WF ⟨lit "get", lit "/a b/" ++ [195, 169, 37] ++ lit "?q=new+v&a%26b=1#frag", [(lit "k 1", lit "v&=1"), ([], []), (lit "q", lit "old"), ([228, 184, 173], lit "+")],
+    [(lit "X-One", lit " v "), (lit "accept-encoding", lit "gzip"), (lit "Cookie", [255, 0])], 0, lit "dropped", [], lit "example.com:8080", []⟩ := by
+  refine ⟨by decide, by decide, by decide, by decide, by decide, by unfold BytesOk; decide, ?_, by decide, by decide, by decide,
     by decide, by decide, by decide⟩
   unfold BytesOk; decide
+
+/-- … and what is recovered for it: the path argument `q` replaced the dict's value in place, `a&b` was appended -/
+example : (view ⟨lit "get", lit "/p?q=new+v&a%26b=1#frag", [(lit "q", lit "old"), (lit "z", lit "1")], [], 0, [], [], lit "h:1", []⟩).query =
+    [(lit "q", lit "new v"), (lit "z", lit "1"), (lit "a&b", lit "1")] := by decide
+
+/-- non-vacuity for a multipart form with non-ASCII field text (the Content-Length line is the byte length) -/
+example : (bodyAndHeaders ⟨lit "POST", lit "/up", [], [(lit "Content-Type", lit "multipart/form-data")], 2, [], [([195, 169], [228, 184, 173])], lit "h:1", lit "B"⟩).1.length = 103 := by decide
 
 /-! non-vacuity / concrete instances (tests, not the unbounded claims) -/
 example : BytesOk (lit "a b/%+&=~" ++ [0, 255, 195, 169]) := by unfold BytesOk; decide
